@@ -135,6 +135,12 @@ func (g *c07gen) stmt(depth int, inLoop map[string]bool) []gen.Node {
 		case 1:
 			return []gen.Node{&gen.NSet{Name: t, X: []gen.Expr{&gen.EBool{V: false}, num(0), str("")}[r.Intn(3)]}}
 		}
+		if r.Intn(5) == 0 {
+			// the assignment is made by a callback, through the scope of the context it is handed: it lands where
+			// a set statement at this point would
+			g.sig = append(g.sig, "setvar")
+			return []gen.Node{pr(&gen.ECall{Fn: "setvar", Args: []gen.Expr{str(t), num(300 + g.uniq())}})}
+		}
 		return []gen.Node{&gen.NSet{Name: t, X: num(100 + g.uniq())}}
 	case 2, 3:
 		// for loop with loop variables drawn from the pool (collisions are the norm)
